@@ -183,8 +183,8 @@ func (s *SiteVisits) MaxLen() (max, maxSmall int, multi int) {
 // GenRun is one execution of a worker.
 type GenRun struct {
 	Res    WorkerResult
-	Tree   Tree            // files under d/ (second generation when twice)
-	First  Tree            // -twice: files of the first generation
+	Tree   Tree                   // files under d/ (second generation when twice)
+	First  Tree                   // -twice: files of the first generation
 	Report map[string]*SiteVisits // instrumented worker only
 	Dir    string
 }
@@ -215,6 +215,8 @@ func (e *Env) Generate(d *DesignRef, instrumented bool, ctl string, twice, keep 
 		bin = e.WorkerInstr
 		env = append(append([]string{}, env...), "C09_CTL="+ctl, "C09_REPORT="+report)
 	}
+	// short-lived single-threaded processes: keep the runtime from spawning 16 GC workers
+	env = append(append([]string{}, env...), "GOMAXPROCS=2", "GOGC=400")
 	args := []string{"-out", filepath.Join(dir, "d")}
 	if d.XDesign != "" {
 		args = append(args, "-xdesign", d.XDesign)
